@@ -94,6 +94,7 @@ static void flush_file(){
 
 // ------------------------------------------------------------------ hooks: events (called while the protocol mutex is held)
 static void event_sink(const char *ev, const long long *a, int na){
+    if (std::strncmp(ev, "pc_", 3) != 0 && std::strncmp(ev, "cm_", 3) != 0 && std::strncmp(ev, "ln_", 3) != 0) return; // other components
     std::lock_guard<std::mutex> lock(logm);
     char b[512];
     std::string e(ev);
@@ -242,6 +243,7 @@ static void final_events(TasmanianSparseGrid &grid){
     // content of the grid after the call: (point, value tag, tag of the surrogate evaluated at the point)
     int n = grid.getNumLoaded();
     std::string s = "{\"e\":\"Final\",\"nl\":" + std::to_string(n) + ",\"pairs\":[";
+    double maxdev = 0.0;
     if (n > 0){
         auto pts = grid.getLoadedPoints();
         const double *vals = grid.getLoadedValues();
@@ -249,13 +251,15 @@ static void final_events(TasmanianSparseGrid &grid){
         for(int i=0; i<n; i++){
             std::vector<double> xi(pts.begin() + (size_t) i * g_dims, pts.begin() + (size_t) (i + 1) * g_dims);
             grid.evaluate(xi, yv);
+            maxdev = std::max(maxdev, std::fabs(yv[1] - vals[(size_t) i * g_nout + 1]));
             int id;
             { std::lock_guard<std::mutex> lock(logm); id = id_of_locked(xi.data()); }
             if (i) s += ",";
             s += "[" + std::to_string(id) + "," + std::to_string(tag_of(vals[(size_t) i * g_nout + 1])) + "," + std::to_string(tag_of(yv[1])) + "]";
         }
     }
-    s += "]}";
+    char dv[64]; snprintf(dv, sizeof(dv), "%.3e", maxdev);
+    s += std::string("],\"maxdev\":\"") + dv + "\"}";
     std::lock_guard<std::mutex> lock(logm);
     put_locked(s);
 }
@@ -265,6 +269,7 @@ static void run_scenario(Scen const &s){
     g_dims = s.dims; g_nout = 2;
     g_seed = s.seed; g_sched = s.sched; g_lat = s.lat;
     model_calls = 0;
+    scen_started_ms = now_ms();      // the watchdog covers the set-up as well
     TasmanianSparseGrid grid = make_grid(s);
     g_grid = &grid;
     int fmodel = s.fmodel;
@@ -324,14 +329,14 @@ static void run_scenario(Scen const &s){
         auto pts = grid.getNeededPoints();
         int n = grid.getNumNeeded();
         std::vector<double> vals((size_t) n * g_nout);
-        std::lock_guard<std::mutex> lock(logm);
-        for(int i=0; i<n; i++){
-            int id = id_of_locked(pts.data() + (size_t) i * s.dims);
-            vals[(size_t) i * g_nout] = drive(fmodel, pts.data() + (size_t) i * s.dims, id);
-            vals[(size_t) i * g_nout + 1] = (double) id;
-            if (i) init += ",";
-            init += std::to_string(id);
-        }
+        { std::lock_guard<std::mutex> lock(logm);
+          for(int i=0; i<n; i++){
+              int id = id_of_locked(pts.data() + (size_t) i * s.dims);
+              vals[(size_t) i * g_nout] = drive(fmodel, pts.data() + (size_t) i * s.dims, id);
+              vals[(size_t) i * g_nout + 1] = (double) id;
+              if (i) init += ",";
+              init += std::to_string(id);
+          } }
         grid.loadNeededValues(vals);
     }
     init += "]";
@@ -416,6 +421,7 @@ int main(int argc, char **argv){
             std::lock_guard<std::mutex> lock(logm);
             put_locked(std::string("{\"e\":\"SetupFailed\",\"what\":\"") + ex.what() + "\",\"index\":" + std::to_string(index) + "}");
         }
+        scen_started_ms = -1;
         { std::lock_guard<std::mutex> lock(logm); flush_file(); }
         index++;
     }
